@@ -1,11 +1,12 @@
-(* The monitor on the model's trace: a model trace that position 14 (e_retry) rejects.
+(* The monitor on the model's trace: two regression histories for the retry bookkeeping (positions 14 and 15).
    One platform queue with one size class, WorkerTaskRetryCount = 0.  A worker parks; Execute with a learner that asks
    for one retry on failure; the worker is told to run the task (first DExec, m_reissue[w] = (ops, 0)); it reports a
    failure; the learner asks for the retry, the task is queued again on the (same, largest) size class and the very
    Synchronize call that reported the failure is handed the task again: a second DExec for the same operation set.
-   The model (like task.assignUnqueued... in the code) resets the task's retry counter at every assignment; the
-   monitor's m_reissue is only reset when the operation set changes, so it counts 1 > 0 and reports
-   "C06:task-reissued-beyond-retry-limit".  Every other position accepts the trace; no panic is reported. *)
+   The model (like the code) resets the task's retry counter at every assignment.  An earlier Spec.v reset m_reissue only
+   when the operation set changed, counted 1 > 0 and reported "C06:task-reissued-beyond-retry-limit" (and, one event
+   later, "C06:task-failed-before-retry-limit"); p_step now clears m_reissue[w] when w hands in an accepted completion
+   report, and accepts both traces. *)
 From VF Require Export Sched.ProofsMon11.
 From VF Require Import Sched.Spec Sched.Corr Sched.ProofsStreams.
 Open Scope Z_scope.
@@ -28,19 +29,16 @@ Lemma rw_outputs : snd (run (init rw_cfg 0) rw_evs) =
   [[ORet 0 0]; []; [OGhost GSelect; OMsg 2 0 3 None]; [OSync 1 (DExec 5 false 100 3 []) 14];
    [OGhost (GFailed 1 false); OSync 3 (DExec 5 false 100 3 []) 15]].
 Proof. vm_compute. reflexivity. Qed.
-Lemma rw_rejected : trace_ok rw_cfg 0 (model_trace rw_cfg 0 rw_evs) = false /\ trace_sub [14%nat] rw_cfg 0 (model_trace rw_cfg 0 rw_evs) = false.
-Proof. split; vm_compute; reflexivity. Qed.
-Lemma rw_others_accept : trace_sub [0;1;2;3;4;5;6;7;8;9;10;11;12;13;15;16;17;18]%nat rw_cfg 0 (model_trace rw_cfg 0 rw_evs) = true.
+Lemma rw_accepted : trace_ok rw_cfg 0 (model_trace rw_cfg 0 rw_evs) = true.
 Proof. vm_compute. reflexivity. Qed.
 
 (* one more event: the worker asks again while it holds the task; with retry count 0 the model fails the task (INTERNAL)
-   at once, and position 15 (e_early) reads m_reissue[w] = (ops, 1) with 1 <> 0: "C06:task-failed-before-retry-limit" *)
+   at once; position 15 (e_early) reads m_reissue[w] = (ops, 0) *)
 Definition rw_evs2 : list (event * list (nat * wref)) := rw_evs ++ [ (EStartSync 4 (mkSync rw_w WIdle false) 6, []) ].
 Lemma rw2_hypotheses : selectors_in_range (init rw_cfg 0) rw_evs2 /\ fresh_calls [] rw_evs2 /\ bg_scripts_ok rw_evs2 /\ learner_ids_unique rw_evs2 /\ causes_ok rw_evs2.
 Proof.
   split; [apply selectors_in_rangeb_sound; vm_compute; reflexivity|]. split; [cbn; intuition congruence|].
   split; [apply bg_scripts_okb_sound; vm_compute; reflexivity|]. split; [apply learner_ids_uniqueb_sound; vm_compute; reflexivity|apply causes_okb_sound; vm_compute; reflexivity].
 Qed.
-Lemma rw2_rejected : trace_sub [15%nat] rw_cfg 0 (model_trace rw_cfg 0 rw_evs2) = false /\
-  trace_sub [0;1;2;3;4;5;6;7;8;9;10;11;12;13;16;17;18]%nat rw_cfg 0 (model_trace rw_cfg 0 rw_evs2) = true.
-Proof. split; vm_compute; reflexivity. Qed.
+Lemma rw2_accepted : trace_ok rw_cfg 0 (model_trace rw_cfg 0 rw_evs2) = true.
+Proof. vm_compute. reflexivity. Qed.
